@@ -327,6 +327,17 @@ def run(repo: Repo, rep: Report, tier: str) -> None:
                        for x in _conj(oi)):
                     continue
             extra.append(norm(c))
+        # the placeholder flags that veto registration are not raised on the finished IR before the decision is taken
+        flag_sets = [n for n in cfg.nodes if n.kind == "stmt" and isinstance(n.ast, ast.Assign) and not n.copy and isinstance(n.ast.targets[0], ast.Attribute)
+                     and is_ir(n.ast.targets[0].value) and n.ast.targets[0].attr in PLACEHOLDER_FLAGS and isinstance(n.ast.value, ast.Constant) and n.ast.value.value is True]
+        early = [n for n in flag_sets if any(t in cfg.reachable(n.id) for t in tests)]
+        subf = f"{ps.module.relpath}:_parse_schema placeholder flags vs registration"
+        if early:
+            rep.violation("R2.6", subf, f"{ps.fq}|flag-before-registration|{early[0].ast.targets[0].attr}",
+                          f"`{norm(early[0].ast)}` runs before the registration decision, which skips schemas carrying that flag: a schema that closes a "
+                          "cycle is finished but never registered under its own name (build_schemas then fails / the model is missing)", ps.loc(early[0].ast))
+        else:
+            rep.ok("R2.6", subf, f"{len(flag_sets)} assignment(s) of a registration-vetoing flag on the finished IR, all after the registration decision", ps.loc())
         sub = f"{ps.module.relpath}:_parse_schema registration"
         if w is None and not extra and conj:
             rep.ok("R2.6", sub, "every path from construction to the final return registers the schema unless it is unnamed, a placeholder, or an inline primitive "
